@@ -194,10 +194,21 @@ def variant_deck(case):
             if lk and lk['but'].get('fill') and \
                     lk['but']['fill'].get('univs') is not None:
                 pass
-        for t in deck['transforms']:
+        for q, t in enumerate(deck['transforms']):
             if t['spec'].get('mask'):
                 t['spec']['j_expanded'] = True
                 applied.add('shorthand:nJ-expanded')
+            # J for the default value of an entry: a zero displacement entry,
+            # m = 1
+            if bits[(q + 3) % len(bits)] % 2 == 0 and \
+                    any(v == 0 for v in t['spec']['o']) and \
+                    any(v != 0 for v in t['spec']['o']):
+                t['spec']['disp_j'] = [True, True, True]
+                applied.add('shorthand:J-for-zero-displacement')
+            if t['spec']['n'] == 13 and t['spec'].get('m') in (None, 1) and \
+                    bits[(q + 5) % len(bits)] % 2 == 0:
+                t['spec']['m_j'] = True
+                applied.add('shorthand:J-for-m')
     return deck, applied
 
 
